@@ -99,6 +99,24 @@ def r8c(ctx: Ctx) -> RuleReport:
 def r8d(ctx: Ctx) -> RuleReport:
     rep = RuleReport('R8d', r8d.title, floor=13)
     lm = ctx.lex
+    # a token class that starts with a look-behind can only begin after certain characters: the documented
+    # grammar has no such context condition, so some text is tokenised differently from the documentation
+    from ..rx import sre_parse, sre_c
+    ctx_dep = set()
+    for cname, ptxt in lm.patterns.items():
+        try:
+            tree = list(sre_parse.parse(ptxt))
+        except Exception:       # noqa: reported elsewhere
+            continue
+        if tree and tree[0][0] in (sre_c.ASSERT, sre_c.ASSERT_NOT) and tree[0][1][0] < 0:
+            ctx_dep.add(cname)
+            neg = tree[0][0] is sre_c.ASSERT_NOT
+            rep.violation(f'{cname} may start anywhere (no context condition)', LEX,
+                          f'PATTERNS[{cname!r}] = {ptxt!r} begins with a look-behind: the class can {"not " if neg else "only "}start after the characters '
+                          f'it names, e.g. directly after ")" or a symbol character. The documented grammar lets {cname} start wherever the previous '
+                          f'token ends, so text such as "(a / alpha)# ::id 2" is tokenised differently (the "#" is no longer a comment)')
+    if ctx_dep:
+        return rep
     sigma = lm.line_alphabet()
     for cp in _patterns(ctx):
         for n, lang, _ in cp.alts:
